@@ -404,8 +404,20 @@ class PaneOptions:
         return dataclasses.replace(self, **{k: v for (k, v) in changes.items() if v is not None})
 
 
-@functools.lru_cache(maxsize=256)
+def _ordered_args(ty: t.Any) -> t.Any:
+    """Hashable key spelling out the (ordered) arguments of `ty`, recursively."""
+    args = ty if isinstance(ty, tuple) else t.get_args(ty)
+    return tuple((arg, _ordered_args(arg)) for arg in args)
+
+
 def _make_subclass(cls: t.Any, params: t.Tuple[t.Any, ...]) -> type:
+    # `Union[int, float] == Union[float, int]`, but they convert differently (left to right),
+    # so the order of arguments has to be a part of the cache key
+    return _make_subclass_cached(cls, params, _ordered_args(params))
+
+
+@functools.lru_cache(maxsize=256)
+def _make_subclass_cached(cls: t.Any, params: t.Tuple[t.Any, ...], _key: t.Any) -> type:
     sup: t.Any = super(PaneBase, cls)
     if not hasattr(sup, '__class_getitem__'):
         raise TypeError(f"type '{cls}' is not subscriptable")
